@@ -4,6 +4,8 @@ package main
 
 import (
 	"fmt"
+	"os"
+	"time"
 	"go/ast"
 	"go/token"
 	"go/types"
@@ -12,6 +14,8 @@ import (
 )
 
 type State struct {
+	log     []string // ghost log of literal byte strings written through Write([]byte("literal")); "?" = not a literal
+	logBad  bool     // logs of merged branches disagreed: the log is unknown from here on
 	epoch   *Term // changes whenever the heap may have changed (results of heap-reading pure calls depend on it)
 	env     map[types.Object]*Term
 	heap    map[string]*Term
@@ -35,6 +39,8 @@ func (s *State) clone() *State {
 		n.heap[k] = v
 	}
 	n.assumes = append([]*Term(nil), s.assumes...)
+	n.log = append([]string(nil), s.log...)
+	n.logBad = s.logBad
 	return n
 }
 
@@ -120,6 +126,9 @@ type Exec struct {
 	curClause        *Clause
 	nameCount        map[string]int
 	poolRefs         []*Term
+	entryCounters    bool
+	steps            int
+	started          time.Time
 	frameC           *frameCtx
 	inObjInv         bool
 	objInvSeen       map[string]bool
@@ -275,9 +284,14 @@ func (x *Exec) merge(base *State, states ...*State) *State {
 	}
 	m := &State{env: map[types.Object]*Term{}, heap: map[string]*Term{}}
 	m.epoch = live[0].epoch
+	m.log = append([]string(nil), live[0].log...)
+	m.logBad = live[0].logBad
 	for _, s := range live {
 		if s.epoch != m.epoch {
 			m.epoch = nil
+		}
+		if s.logBad || strings.Join(s.log, "\x00") != strings.Join(m.log, "\x00") {
+			m.logBad = true
 		}
 	}
 	m.assumes = append([]*Term(nil), base.assumes...)
@@ -448,6 +462,14 @@ func (x *Exec) allocBlock(s *State) *Term {
 func (x *Exec) typeInv(s *State, v *Term, t types.Type, depth int) *Term {
 	if depth > 3 {
 		return True
+	}
+	if x.entryCounters {
+		// value read from the entry version of the heap: it was allocated before the function was entered
+		tmp := &State{heap: map[string]*Term{"$alloc": Var("$alloc@0", SInt), "$balloc": Var("$balloc@0", SInt)}}
+		x.entryCounters = false
+		r := x.typeInv(tmp, v, t, depth)
+		x.entryCounters = true
+		return r
 	}
 	switch u := t.Underlying().(type) {
 	case *types.Basic:
@@ -705,18 +727,33 @@ func (x *Exec) splitOrMerge(base *State, outs []*State) []*State {
 	// branches that did not touch the heap are always merged (only values differ: cheap ite)
 	sameHeap := true
 	for _, o := range live[1:] {
-		if len(o.heap) != len(live[0].heap) {
+		if strings.Join(o.log, "\x00") != strings.Join(live[0].log, "\x00") {
 			sameHeap = false
 			break
 		}
-		for k, v := range o.heap {
-			if live[0].heap[k] != v {
+		val := func(st *State, k string) *Term {
+			if v, ok := st.heap[k]; ok {
+				return v
+			}
+			return x.heapInit(k, nil)
+		}
+		for k := range o.heap {
+			if val(live[0], k) != val(o, k) {
+				sameHeap = false
+				break
+			}
+		}
+		for k := range live[0].heap {
+			if val(live[0], k) != val(o, k) {
 				sameHeap = false
 				break
 			}
 		}
 	}
 	// blockDepth 1 = function body, loop bodies reset the depth (see cutLoop)
+	if os.Getenv("GOVC_TRACE") != "" {
+		fmt.Fprintf(os.Stderr, "join: %d live, sameHeap=%v depth=%d budget=%d frames=%d active=%v\n", len(live), sameHeap, x.blockDepth, x.splitBudget, len(x.frames), x.splitActive(x.blockDepth > 1))
+	}
 	if !sameHeap && x.splitActive(x.blockDepth > 1) {
 		x.splitBudget -= len(live) - 1
 		return live
@@ -729,6 +766,17 @@ func (x *Exec) splitOrMerge(base *State, outs []*State) []*State {
 }
 
 func (x *Exec) execStmt(s *State, st ast.Stmt) *State {
+	x.steps++
+	if x.steps%64 == 0 {
+		if x.started.IsZero() {
+			x.started = time.Now()
+		} else if time.Since(x.started) > 90*time.Second {
+			panic("symbolic execution budget exceeded (90 s): function out of reach as annotated")
+		}
+	}
+	if len(x.obls) > 30000 {
+		panic("verification condition budget exceeded (30000 obligations): function out of reach as annotated")
+	}
 	switch n := st.(type) {
 	case *ast.BlockStmt:
 		return x.execBlock(s, n.List)
@@ -1378,7 +1426,11 @@ func (x *Exec) loadField(s *State, ref *Term, si *structInfo, i int) *Term {
 		}
 		if v.K == TApp && v.Op == "select" {
 			_ = key
+			if h.K == TVar && strings.HasSuffix(h.Op, "@0") {
+				x.entryCounters = true
+			}
 			s.assume(x.typeInv(s, v, ft, 0))
+			x.entryCounters = false
 		}
 		x.assumeObjInv(s, v, ft)
 	}
